@@ -48,12 +48,14 @@ type Func struct {
 	Body   *ast.BlockStmt
 	Type   *ast.FuncType
 
-	g         *cfg.CFG
-	dom       [][]bool // dom[a][b]: block a dominates block b
-	blockFact map[*cfg.Block][]Fact
-	nodeBlock map[ast.Node]*cfg.Block
-	assigns   map[types.Object][]ast.Node // assignment sites per local object
-	litCount  int
+	g          *cfg.CFG
+	dom        [][]bool // dom[a][b]: block a dominates block b
+	blockFact  map[*cfg.Block][]Fact
+	nodeBlock  map[ast.Node]*cfg.Block
+	assigns    map[types.Object][]ast.Node // assignment sites per local object
+	litCount   int
+	locals     map[string]bool // names of receiver, parameters and locals (root functions only)
+	localTypes map[string][]types.Type
 }
 
 // loadProg loads every package of the module found under dir.
@@ -107,6 +109,15 @@ func loadProg(dir, goarch string, needDeps bool) (*Prog, error) {
 	for _, pk := range p.Pkgs {
 		for _, f := range pk.Syntax {
 			p.indexFile(pk, f)
+		}
+	}
+	for _, f := range p.Funcs {
+		root := f
+		for root.Parent != nil {
+			root = root.Parent
+		}
+		if root.Decl != nil && root.Decl.Recv != nil && len(root.Decl.Recv.List) == 1 && len(root.Decl.Recv.List[0].Names) == 1 {
+			recvNameOf[f.Name] = root.Decl.Recv.List[0].Names[0].Name
 		}
 	}
 	return p, nil
